@@ -300,6 +300,10 @@ func (st *state) op(r *sim.Rand) {
 				err = st.b.DisableUplinkChannelIndex(j)
 			}
 			if err != nil {
+				if j >= len(st.std) {
+					simrt.Count(cNotJudged) // (a band may refuse to switch a custom slot; the model follows its answer)
+					continue
+				}
 				simrt.Report("p2.error-on-valid:block-op", fmt.Sprintf("%s: enable/disable of valid index %d failed: %v", st.name, j, err))
 				continue
 			}
